@@ -1,5 +1,5 @@
 """C20 — see coq/Properties/C20.v (theorems) and lib/envcheck.py (tie + monitor)."""
-import envcheck
+import envcheck, conccheck
 from vlib import Check
 
 RUNS = {
@@ -27,7 +27,14 @@ def main(tier, seed, replay):
     ck.coq_theorems()
     n = 240 if tier == "quick" else 2400
     runs = [["-replay", replay]] if replay else RUNS[prop](seed, n)
+    if replay and "sched-" in replay:
+        conccheck.run(ck, "reload", tier, seed, replay)
+        return ck.finish()
     cases = envcheck.run_harness(ck, "env", runs)
     if cases is None:
         return ck.finish()
+    # "at most once per factory per interval however many sessions and partitions use it": goroutines that find a key stale
+    # together (controlled schedules of the real GetOrLoad)
+    if not replay:
+        conccheck.run(ck, "reload", tier, seed, None, n_quick=90, n_thorough=900)
     return envcheck.finish_env(ck, prop, cases, RULE)
